@@ -18,10 +18,13 @@ type zlibW struct {
 }
 
 type zlibR struct {
-	src    value // io.Reader
-	loaded bool
-	data   []value
-	err    value // sticky error (iface)
+	src     value // io.Reader
+	raw     []value // bytes received from the source so far
+	srcDone bool    // the source reported EOF or an error
+	loaded  bool    // Read has fetched the rest of the source
+	data    []value
+	err     value // sticky source or format error (iface)
+	hdrErr  value // error reported by NewReader/Reset
 }
 
 func (in *interp) zlibWriterType() types.Type {
@@ -142,12 +145,71 @@ func init() {
 		return done(r[1])
 	}
 
+	// The reader mirrors compress/zlib's use of its source: NewReader and
+	// Reset read eagerly (one Read of up to 4096 bytes, as bufio does) and
+	// check the header; Read fetches the rest.  When the source fails part
+	// way, the data received so far is delivered before the error (io.Reader
+	// permits that, and the real decompressor does it).
+	zlibFill := func(fr *frame, r *zlibR, once bool) {
+		in := fr.in
+		src := r.src.(iface)
+		if src.t == nil {
+			panic(runtimePanic{"invalid memory address or nil pointer dereference (nil zlib source)"})
+		}
+		read := in.findMethod(src.t, "Read")
+		for iter := 0; !r.srcDone; iter++ {
+			if iter > 1<<16 {
+				panic(in.abort(abortUnwind, "zlib model: source does not end"))
+			}
+			buf := make([]value, 4096)
+			for i := range buf {
+				buf[i] = uint8(0)
+			}
+			res := in.call(fr, 0, read, []value{src.v, buf}).(tuple)
+			n := int(in.concreteInt(res[0], "zlib read count"))
+			r.raw = append(r.raw, buf[:n]...)
+			if e := res[1].(iface); e.t != nil {
+				r.srcDone = true
+				if !in.truth(in.equals(nil, e, in.ioEOF())) {
+					r.err = e
+				}
+			} else if n == 0 && iter > 64 {
+				panic(in.abort(abortUnwind, "zlib model: source makes no progress"))
+			}
+			if once && (n > 0 || r.srcDone) {
+				break
+			}
+		}
+	}
+	// zlibHeader checks what NewReader/Reset check; returns an error value
+	// (iface) or an empty iface.
+	zlibHeader := func(fr *frame, r *zlibR) value {
+		in := fr.in
+		zlibFill(fr, r, true)
+		for len(r.raw) < 2 && !r.srcDone {
+			zlibFill(fr, r, true)
+		}
+		if len(r.raw) < 2 {
+			if r.err != nil {
+				return r.err
+			}
+			return in.zlibUnexpectedEOF()
+		}
+		if !in.truth(in.and(in.equals(types.Typ[types.Uint8], r.raw[0], uint8(0x78)), in.equals(types.Typ[types.Uint8], r.raw[1], uint8(0x9c)))) {
+			return in.zlibGlobalErr("ErrHeader")
+		}
+		return iface{}
+	}
 	externals["compress/zlib.NewReader"] = func(fr *frame, args []value) (value, bool) {
 		in := fr.in
 		var cell value = zero(in.zlibReaderType().(*types.Pointer).Elem())
 		p := &cell
 		r := in.zr(p)
 		r.src = args[0]
+		if e := zlibHeader(fr, r).(iface); e.t != nil {
+			r.hdrErr = e
+			return done(tuple{iface{}, e})
+		}
 		return done(tuple{iface{t: in.zlibReaderType(), v: p}, iface{}})
 	}
 	externals["(*compress/zlib.reader).Reset"] = func(fr *frame, args []value) (value, bool) {
@@ -155,6 +217,10 @@ func init() {
 		old := *r
 		fr.in.logUndo(func() { *r = old })
 		*r = zlibR{src: args[1]}
+		if e := zlibHeader(fr, r).(iface); e.t != nil {
+			r.hdrErr = e
+			return done(e)
+		}
 		return done(iface{})
 	}
 	externals["(*compress/zlib.reader).Close"] = func(fr *frame, args []value) (value, bool) {
@@ -164,49 +230,23 @@ func init() {
 		in := fr.in
 		r := in.zr(args[0])
 		p := args[1].([]value)
+		if r.hdrErr != nil {
+			return done(tuple{0, r.hdrErr})
+		}
 		if !r.loaded {
 			old := *r
 			in.logUndo(func() { *r = old })
 			r.loaded = true
-			// slurp the source
-			src := r.src.(iface)
-			if src.t == nil {
-				panic(runtimePanic{"invalid memory address or nil pointer dereference (nil zlib source)"})
-			}
-			read := in.findMethod(src.t, "Read")
-			var all []value
-			buf := make([]value, 512)
-			for i := range buf {
-				buf[i] = uint8(0)
-			}
-			for iter := 0; ; iter++ {
-				if iter > 1<<16 {
-					panic(in.abort(abortUnwind, "zlib model: source does not end"))
-				}
-				res := in.call(fr, 0, read, []value{src.v, buf}).(tuple)
-				n := int(in.concreteInt(res[0], "zlib read count"))
-				all = append(all, append([]value(nil), buf[:n]...)...)
-				if e := res[1].(iface); e.t != nil {
-					if in.truth(in.equals(nil, e, in.ioEOF())) {
-						break
-					}
-					r.err = e
-					break
-				}
-			}
-			if r.err == nil {
-				switch {
-				case len(all) < 2:
-					r.err = in.zlibUnexpectedEOF()
-				case !in.truth(in.and(in.equals(types.Typ[types.Uint8], all[0], uint8(0x78)), in.equals(types.Typ[types.Uint8], all[1], uint8(0x9c)))):
-					r.err = in.zlibGlobalErr("ErrHeader")
-				case len(all) < 6:
-					r.data = all[2:]
-					r.data = nil
-					r.err = in.zlibUnexpectedEOF()
-				default:
-					r.data = all[2 : len(all)-4]
-				}
+			zlibFill(fr, r, false)
+			all := r.raw
+			switch {
+			case r.err != nil:
+				// the source failed: what arrived is delivered first
+				r.data = all[2:]
+			case len(all) < 6:
+				r.err = in.zlibUnexpectedEOF()
+			default:
+				r.data = all[2 : len(all)-4]
 			}
 		}
 		if len(r.data) > 0 {
